@@ -569,12 +569,15 @@ impl<'src> Lexer<'src> {
 
 macro_rules! lx_str_expr_harness {
     ($k:literal, $b:literal, $uw:literal, $name:ident, $plain:literal, $fixed:expr, |$c0:ident| $first:expr, |$t:ident| $asm:expr) => {
+        lx_str_expr_harness!($k, $b, $uw, $name, $plain, $fixed, |$c0| $first, |$t| $asm, Txt::any(PFX, $fixed));
+    };
+    ($k:literal, $b:literal, $uw:literal, $name:ident, $plain:literal, $fixed:expr, |$c0:ident| $first:expr, |$t:ident| $asm:expr, $gen:expr) => {
         lx_harness! {
             #[kani::unwind($uw)]
             #[kani::stub(Lexer::lex_macro_var_expr, Lexer::mvar_false)]
             #[kani::stub(Lexer::lex_macro_identifier, Lexer::stub_dead1)]
             fn $name() {
-                let $t = Txt::<$k, $b>::any(PFX, $fixed);
+                let $t: Txt<$k, $b> = $gen;
                 kani::assume($t.n >= 1);
                 kani::assume($asm);
                 let t = $t;
@@ -672,6 +675,13 @@ lx_str_expr_harness!(4, 20, 6, lx_str_expr_quote_plain_k4, true, &['"'], |c| '"'
 // first char '%' / '&' that is not a macro trigger: consumed by the dispatcher, still part of the text and payload
 lx_str_expr_harness!(3, 16, 5, lx_str_expr_percent_k3, true, &['%'], |c| '%', |t| true);
 lx_str_expr_harness!(3, 16, 5, lx_str_expr_amp_k3, false, &['&'], |c| '&', |t| true);
+
+// exactly n ASCII characters at constant byte positions (cheap): plain literal / expression; 'a' or '"' first
+lx_str_expr_harness!(3, 8, 5, lx_str_expr_text_plain_ascii_n3, true, &['a'], |c| 'a', |t| true, Txt::ascii_exact_fixed(&['a']));
+lx_str_expr_harness!(4, 8, 6, lx_str_expr_text_plain_ascii_n4, true, &['a'], |c| 'a', |t| true, Txt::ascii_exact_fixed(&['a']));
+lx_str_expr_harness!(4, 8, 6, lx_str_expr_text_expr_ascii_n4, false, &['a'], |c| 'a', |t| true, Txt::ascii_exact_fixed(&['a']));
+lx_str_expr_harness!(3, 8, 5, lx_str_expr_quote_plain_ascii_n3, true, &['"'], |c| '"', |t| true, Txt::ascii_exact_fixed(&['"']));
+lx_str_expr_harness!(4, 8, 6, lx_str_expr_quote_expr_ascii_n4, false, &['"'], |c| '"', |t| true, Txt::ascii_exact_fixed(&['"']));
 
 // the opening quote
 lx_harness! {
